@@ -19,7 +19,8 @@ RULE = ('user code raises: Fault with generated dotted codes (Client|Server firs
         'open), Unicode messages, nested string-leaf detail dicts; generated Fault subclasses; the dedicated errors (413/404/405/401); '
         'non-Fault exceptions of generated classes whose message, class name and raising helper each carry a distinct random token; x 9 '
         'protocol configurations x {WSGI, ServerBase, loopback client}; non-trivial = a fault document was decoded and compared; distinct '
-        'by (protocol, driver, fault kind, code shape, detail shape, status).')
+        'by (protocol, driver, fault kind, code shape, detail shape, status).'
+        ' Also: Fault subclasses declaring or inheriting a class-level CODE, generator methods failing before and after their first item, positional (list) fault output, multi-entry details.')
 ASSUMPTIONS = [
     '"same code" is compared modulo wire spelling: a QName prefix bound to (or conventionally naming) the SOAP envelope namespace is stripped; SOAP 1.2 Sender/Receiver + Subcodes map to Client/Server + dotted sub-codes',
     'detail is compared as a nested mapping with string leaves (the shape every protocol can carry)',
